@@ -6,7 +6,7 @@
 From Sci Require Export StdPath.ModelRouting StdPath.Spec Common.AesCmac.
 Local Open Scope N_scope.
 
-Inductive rref := RSame | RLit (l : list N).
+Inductive rref := RSame | RLit (l : list N) | RDiff (d : list (N * N)).   (* RDiff: (position, new byte) *)
 Record rcase := mkRC {
   rc_kind : N;                    (* 0 free, 1 authentic walk (every step must pass), 2/3 single/double bit flip *)
   rc_b : list N;                  (* path bytes *)
@@ -61,7 +61,18 @@ Definition model_step (keys : list (list N)) (b : list N) (st : N * N) : N * lis
   else
     let '(b', r) := advance_ingress (mk_val keys vc) (kind =? 1) b in (ing_enc r, b').
 
-Definition resolve (prev : list N) (r : rref) : list N := match r with RSame => prev | RLit l => l end.
+Fixpoint set_nth (l : list N) (i : nat) (x : N) : list N :=
+  match l, i with
+  | [], _ => []
+  | _ :: r, O => x :: r
+  | y :: r, S i' => y :: set_nth r i' x
+  end.
+Definition resolve (prev : list N) (r : rref) : list N :=
+  match r with
+  | RSame => prev
+  | RLit l => l
+  | RDiff d => fold_left (fun acc '(i, x) => set_nth acc (N.to_nat i) x) d prev
+  end.
 
 Fixpoint run_mismatch (keys : list (list N)) (b : list N) (steps : list (N * N))
          (res : list (N * list N * rref * N)) : bool :=
